@@ -891,6 +891,18 @@ def _want(only, sub):
     return only is None or sub in only
 
 
+
+def oracle_atheris(case) -> Result:
+    """Replay / triage oracle for inputs found by the Atheris campaign: decode the bytes like the fuzz target does."""
+    from fuzz import targets
+
+    res = oracle(targets.CASES["C17"](case["data"]))
+    res.label("atheris")
+    return res
+
+
+SUBS["atheris"] = oracle_atheris
+
 def run(rec, only=None):
     quick = rec.tier == "quick"
     procs = core.ncpu()
@@ -912,3 +924,8 @@ def run(rec, only=None):
     core.drive_hypothesis(rec, "qraw", qraw_case(), oracle_qraw, 600 if quick else 20000, seed_offset=7)
     rec.exhaustive["qexh"] = True
     rec.exhaustive["long"] = rec.exhaustive["query"] = rec.exhaustive["qbulk"] = rec.exhaustive["qraw"] = False
+    if not quick and (rec.only is None or "atheris" in rec.only):
+        # coverage-guided second engine (Atheris / libFuzzer), same oracle inside the target
+        from fuzz import driver
+
+        driver.campaign(rec, "C17", oracle_atheris, runs=300000, seeds=[b'\x01\x03\x00\x01\x01\x02\x05\x01\x00\x02'], max_total_time=150, jobs=4)
